@@ -104,7 +104,7 @@ class MonthLongStringMiddleware(_MonthInterpolator):
             if v < 1 or v > 12:
                 return (
                     month_field.value,
-                    f"month-field unchanged - unknown month {v}",
+                    "month-field unchanged - month number out of range",
                 )  # Nothing we can do here
             return _MONTH_FULL[v - 1], "transformed int-month to str-month"
         elif isinstance(v, str):
@@ -147,7 +147,7 @@ class MonthAbbreviationMiddleware(_MonthInterpolator):
         if isinstance(v, int):
             if v < 1 or v > 12:
                 # Nothing we can do here
-                return month_field.value, f"month-field unchanged - unknown month {v}"
+                return month_field.value, "month-field unchanged - month number out of range"
             return _MONTH_ABBREV[v - 1], "transformed int-month to abbreviated month"
         elif isinstance(v, str):
             v_lower = v.lower()
